@@ -218,6 +218,9 @@ def r_pair(repo, tier):
             if not uses:
                 out.undecide(f.file, f.dqual, r.text, "piece is never used (dead read)")
                 continue
+            if any(isinstance(x, ast.Return) and x.value is not None and r.var in names_in(x.value) for x in ast.walk(fn)):
+                out.undecide(f.file, f.dqual, r.text, "the piece is returned to the caller, which records it (helper of a setup function)")
+                continue
             if _lookahead_only(fn, r.var):
                 out.undecide(f.file, f.dqual, r.text, "look-ahead: the piece is only inspected in tests, the tail is not advanced past it")
                 continue
